@@ -315,6 +315,19 @@ def _split_anchor(rt, before, after):
     return b1[0], False
 
 
+def _edge_anchor(rt, before, after):
+    nb, na = len(before), len(after)
+    if after and after[0] == '}' and na >= 4:
+        pos = [b for b in range(0, len(rt) - na + 1) if rt[b:b + na] == after]
+        if len(pos) == 1:
+            return pos[0]
+    if before and before[-1] == '{' and nb >= 4:
+        pos = [b for b in range(nb, len(rt) + 1) if rt[b - nb:b] == before]
+        if len(pos) == 1:
+            return pos[0]
+    return None
+
+
 def apply_overlay(raw, ops, guessed=None):
     """returns (text, inserted) where inserted = [(start, end, op_index)] offsets in text; `guessed` collects the
     item paths in which an annotation had to be placed by a guess"""
@@ -346,6 +359,12 @@ def apply_overlay(raw, ops, guessed=None):
         rt = texts(R.toks[node.lo:node.hi])
         b, best, second = _best(rt, op['before'], op['after'])
         full = 2 * (len(op['before']) + len(op['after']))
+        if second >= best - 1 or best < full * 0.45:
+            # annotations at a block boundary are tied to that boundary: a full, unique match of the side that
+            # contains the brace decides, whatever happened on the other side
+            edge = _edge_anchor(rt, op['before'], op['after'])
+            if edge is not None:
+                b, best, second = edge, full, 0
         if best >= full * 0.45 and second >= best - 1:
             # typical cause: new tokens were inserted exactly at the anchor, so the text before it and the text
             # after it both still match, at two different places
